@@ -1060,10 +1060,25 @@ class Req:
         f = self.fn("lm_ots::keygen::generate_private_key")
         pushes = [(b, t) for b, t in f.calls() if core.strip_generics(core.callee_path(t) or "") == "tinyvec::arrayvec::ArrayVec::push" and not f.blocks[b]["cleanup"]]
         ok = len(pushes) == 1
+        how = "push"
         if ok:
             o = flow.origin(f, pushes[0][1]["args"][1])
             ok = o[0] == "call" and (core.callee_of(o[2]) or {}).get("method") in ("finalize_reset", "finalize")
-        return (ok, "one-time key nodes are finalize outputs (length OUTPUT_SIZE)")
+        elif not pushes:
+            # the same vector built by `(0..p).map(|i| .. finalize ..).collect()`: every closure of this function that is handed
+            # to `map` returns a finalize output
+            how = "map + collect"
+            cls = [self.F.fns[c] for c in self.F._closures.get(f.path, [])]
+            colls = [t for b, t in f.calls() if core.strip_generics(core.callee_path(t) or "").endswith("Iterator::collect") and not f.blocks[b]["cleanup"]]
+            rets = []
+            for c in cls:
+                o = flow.origin(c, {"k": "copy", "place": {"local": 0, "proj": [], "ty": ""}})
+                if o[0] == "local":
+                    ds = [d for d in c.defs_of(0) if not c.blocks[d[0]]["cleanup"]]
+                    o = ("call", ds[0][0], ds[0][2]) if len(ds) == 1 and ds[0][1] == "term" else o
+                rets.append(o[0] == "call" and (core.callee_of(o[2]) or {}).get("method") in ("finalize_reset", "finalize"))
+            ok = len(colls) == 1 and len(cls) == 1 and all(rets)
+        return (ok, "one-time key nodes are finalize outputs (length OUTPUT_SIZE) [%s]" % how)
 
     def r_randomizer_is_hash_output(self):
         g = self.fn("hss::reference_impl_private_key::generate_signature_randomizer")
